@@ -299,23 +299,29 @@ Proof.
   destruct (alookup (st_path s) R) as [x|]; [|destruct Hv]. exists x. simpl in Hv. tauto.
 Qed.
 
-(* created_by_transfer (absent from the prior listing, or another type there) => re-created with
-   exactly the source's stat *)
+(* created_by_transfer (absent from the prior listing, or another type there) => the entry is the
+   subject of an add/modify, hence re-created with exactly the source's stat *)
+Lemma fresh_created_change s c : In (s, c) B -> created_by_transfer A s = true ->
+  exists k, k <> KDelete /\ In (k, st_path s, Some s) (diff idf d LA LB).
+Proof.
+  intros Hin Hc. assert (Hb : In s LB) by (apply (in_map fst _ _ Hin)).
+  destruct (fresh_cases s Hb) as [(a & Ha & Ea & Es)|(k & Hk & Hd)]; [|eauto].
+  exfalso. unfold created_by_transfer in Hc.
+  destruct (find_entry (st_path s) A) as [[ps pc]|] eqn:Ef.
+  - apply find_entry_some in Ef. destruct Ef as [Hps Ep]. simpl in Ep.
+    assert (ps = a).
+    { destruct HwA as [HsA _]. apply (sorted_unique LA); auto; [apply (in_map fst _ _ Hps)|congruence]. }
+    subst ps. apply negb_true_iff in Hc. unfold same_type in Hc.
+    rewrite (same_file_mode _ _ _ Es), N.eqb_refl in Hc. discriminate.
+  - apply in_map_iff in Ha. destruct Ha as ([a' ba] & E1 & Ha). simpl in E1. subst a'.
+    eapply (find_entry_none _ _ Ef (a, ba)); eauto.
+Qed.
+
 Lemma fresh_created s c : In (s, c) B -> created_by_transfer A s = true ->
   exists e, alookup (st_path s) R = Some e /\ de_stat e = s.
 Proof.
-  intros Hin Hc. assert (Hb : In s LB) by (apply (in_map fst _ _ Hin)).
-  destruct (fresh_cases s Hb) as [(a & Ha & Ea & Es)|(k & Hk & Hd)].
-  - exfalso. unfold created_by_transfer in Hc.
-    destruct (find_entry (st_path s) A) as [[ps pc]|] eqn:Ef.
-    + apply find_entry_some in Ef. destruct Ef as [Hps Ep]. simpl in Ep.
-      assert (ps = a).
-      { destruct HwA as [HsA _]. apply (sorted_unique LA); auto; [apply (in_map fst _ _ Hps)|congruence]. }
-      subst ps. apply negb_true_iff in Hc. unfold same_type in Hc.
-      rewrite (same_file_mode _ _ _ Es), N.eqb_refl in Hc. discriminate.
-    + apply in_map_iff in Ha. destruct Ha as ([a' ba] & E1 & Ha). simpl in E1. subst a'.
-      eapply (find_entry_none _ _ Ef (a, ba)); eauto.
-  - destruct (fresh_changed k s Hk Hd) as (e & He & Es & _). eauto.
+  intros Hin Hc. destruct (fresh_created_change s c Hin Hc) as (k & Hk & Hd).
+  destruct (fresh_changed k s Hk Hd) as (e & He & Es & _). eauto.
 Qed.
 
 Lemma fresh_entry_ok s c : In (s, c) B ->
